@@ -1071,6 +1071,18 @@ def run(ctx):
         direct_only_closest(ctx, segs)
     # 2. whole backend on lattice clouds
     cases = [gen_case(rng, small=True) for _ in range(3000 if th else 500)] + [gen_case(rng) for _ in range(6000 if th else 900)]
+    # the same lattice clouds at scale 2^-24 (section coordinates, radius): still exact in floats; squared distances are ~1e-15..1e-13,
+    # where anything absolute (rounding to a fixed number of decimals, absolute guards) decides differently from the exact rule
+    micro = []
+    for _ in range(1500 if th else 300):
+        c = gen_case(rng)
+        sc = F(1, 2 ** 24)
+        c["pu"] = [(F(x) * sc, F(y) * sc) for x, y in c["pu"]]
+        c["ps"] = [(F(x) * sc, F(y) * sc) for x, y in c["ps"]]
+        c["eps"] = F(c["eps"]) * sc
+        c["style"] = "micro-" + c["style"]
+        micro.append(c)
+    cases += micro
     try:
         for k in range(0, len(cases), 700):
             corr_run(ctx, cases[k:k + 700])
